@@ -401,14 +401,19 @@ func (h *NtfnsHandler) filterTx(tx *wire.MsgTx, blockMeta *txmgr.BlockMeta,
 					// For connected block, it's unnecessary to go on checking
 					// if no output created by previous hash.
 					exist := false
-					mwdb.View(h.walletMgr.db, func(rtx mwdb.ReadTransaction) error {
-						exist = h.walletMgr.utxoStore.ExistCreditFromTx(rtx, &txIn.PreviousOutPoint.Hash)
-						return nil
+					err = mwdb.View(h.walletMgr.db, func(rtx mwdb.ReadTransaction) (err error) {
+						exist, err = h.walletMgr.utxoStore.ExistCreditFromTx(rtx, &txIn.PreviousOutPoint.Hash)
+						return err
 					})
-					if !exist && len(dbtxs) > 0 && dbtxs[0] != nil {
+					if err == nil && !exist && len(dbtxs) > 0 && dbtxs[0] != nil {
 						// credits added by earlier blocks of the same (uncommitted)
 						// write transaction, e.g. during a reorg
-						exist = h.walletMgr.utxoStore.ExistCreditFromTx(dbtxs[0], &txIn.PreviousOutPoint.Hash)
+						exist, err = h.walletMgr.utxoStore.ExistCreditFromTx(dbtxs[0], &txIn.PreviousOutPoint.Hash)
+					}
+					if err != nil {
+						// a failed lookup is not "no credit": skipping the input here would
+						// commit the block without the spend
+						return false, nil, err
 					}
 					if !exist {
 						continue
